@@ -4209,6 +4209,17 @@ fn propagate_sctp_close_reason(inner: &PeerConnectionInner) {
                 false
             }
         });
+        // The association is gone for good (remote ABORT / SHUTDOWN, heartbeat or INIT
+        // timeout) and the connected-state loop is about to return: report it instead of
+        // leaving the connection `Connected` forever.
+        inner.peer_state.send_if_modified(|state| {
+            if *state == PeerConnectionState::Connected {
+                *state = PeerConnectionState::Failed;
+                true
+            } else {
+                false
+            }
+        });
     }
 }
 
